@@ -85,9 +85,9 @@ Proof. vm_compute. reflexivity. Qed.
 (** VotePeriod edited between prevote and vote: the window is computed with the current period *)
 Definition edited : list event :=
   [ (7%Z, Prevote 0 0 (Hx 1 1 0) true);
-    (7%Z, EditParams false 2%Z);            (* not a sudoer *)
-    (7%Z, EditParams true 0%Z);             (* 0 = leave unchanged *)
-    (7%Z, EditParams true 2%Z);
+    (7%Z, EditParams false 2%Z true);       (* not a sudoer *)
+    (7%Z, EditParams true 0%Z true);        (* 0 = leave unchanged *)
+    (7%Z, EditParams true 2%Z true);
     (8%Z, Vote 0 0 1 1 7 true true);        (* 8/2 - 7/2 = 1: accepted (8/5 - 7/5 = 0 before the edit) *)
     (8%Z, SetStatus 1 NotBonded);
     (8%Z, Prevote 1 1 (Hx 1 1 1) true);     (* unbonded *)
